@@ -60,6 +60,105 @@ theorem run_returns {F : Type} [Agg.Num F] (k : TracerCfg) (hc : CfgOk k.strat) 
       (by simp [init]; omega)
     simpa using this
 
+
+/-- the round counter of the stack's tracing state counts the rounds the loop has published -/
+theorem loop_round_count {F : Type} [Agg.Num F] {c : Cfg} (hc : CfgOk c) :
+    ∀ (envs : List Env) (st : St F), Reach c st.ts →
+      (Stack.loop c st envs).1.ts.round = st.ts.round + (Props.Stack.published (Stack.loop c st envs).2.1).length := by
+  intro envs
+  induction envs with
+  | nil => intro st _; simp [Stack.loop, Props.Stack.published]
+  | cons e es ih =>
+    intro st hs
+    unfold Stack.loop
+    by_cases hf : finished st.ts c.maxRounds = true
+    · simp [hf, Props.Stack.published]
+    · simp only [hf, Bool.false_eq_true, if_false]
+      cases hi : Stack.iter c st e with
+      | panic => simp [Props.Stack.published]
+      | err er => simp [Props.Stack.published]
+      | ok v =>
+        obtain ⟨st', o⟩ := v
+        obtain ⟨ro, hit, _, _⟩ := Stack.iter_refines hi
+        have hs' : Reach c st'.ts := .step _ _ hs hit
+        have hstep := C09.round_step hc hs hit
+        have := ih st' hs'
+        simp only [Props.Stack.published] at this ⊢
+        cases hp : o.published with
+        | none =>
+          have h0 : st'.ts.round = st.ts.round := by simpa [hp] using hstep
+          simp only [List.filterMap_cons, hp]
+          rw [this, h0]
+        | some r =>
+          have h1 : st'.ts.round = st.ts.round + 1 := by simpa [hp] using hstep
+          simp only [List.filterMap_cons, hp, List.length_cons]
+          rw [this, h1, Nat.add_right_comm]; rfl
+
+/-- **C09 for the whole stack: exactly n rounds.**  With a round limit `n` the loop of `Tracer::run`
+    never publishes more than `n` rounds, and when it returns `Ok(())` it has published exactly `n`
+    — whatever the sockets did. -/
+theorem loop_exactly_n_rounds {F : Type} [Agg.Num F] {c : Cfg} (hc : CfgOk c) (n : Nat) (hn : 1 ≤ n)
+    (hm : c.maxRounds = some n) :
+    ∀ (envs : List Env) (st : St F), Reach c st.ts → st.ts.round ≤ n →
+      (Stack.loop c st envs).1.ts.round ≤ n ∧
+      ((Stack.loop c st envs).2.2 = some (.ok ()) → (Stack.loop c st envs).1.ts.round = n) := by
+  intro envs
+  induction envs with
+  | nil =>
+    intro st _ hle
+    simp only [Stack.loop]
+    refine ⟨hle, fun h => ?_⟩
+    by_cases hf : finished st.ts c.maxRounds = true
+    · simp [finished, hm] at hf; omega
+    · simp [hf] at h
+  | cons e es ih =>
+    intro st hs hle
+    unfold Stack.loop
+    by_cases hf : finished st.ts c.maxRounds = true
+    · simp only [hf, if_true]
+      refine ⟨hle, fun _ => ?_⟩
+      simp [finished, hm] at hf; omega
+    · simp only [hf, Bool.false_eq_true, if_false]
+      have hlt : st.ts.round < n := by simp [finished, hm] at hf; omega
+      cases hi : Stack.iter c st e with
+      | panic => exact ⟨hle, fun h => by simp at h⟩
+      | err er => exact ⟨hle, fun h => by simp at h⟩
+      | ok v =>
+        obtain ⟨st', o⟩ := v
+        obtain ⟨ro, hit, _, _⟩ := Stack.iter_refines hi
+        have hs' : Reach c st'.ts := .step _ _ hs hit
+        have hstep := C09.round_step hc hs hit
+        have hle' : st'.ts.round ≤ n := by rw [hstep]; split <;> omega
+        have := ih st' hs' hle'
+        simpa using this
+
+/-- from the start of `Tracer::run`: `Ok(())` ⇒ exactly `n` rounds were published and folded into the `State` -/
+theorem run_exactly_n_rounds {F : Type} [Agg.Num F] (k : TracerCfg) (hc : CfgOk k.strat) (n : Nat) (hn : 1 ≤ n)
+    (hm : k.strat.maxRounds = some n) (t0 : Nat) (envs : List Env) :
+    (Props.Stack.published (Stack.run (F := F) k t0 envs).outs).length ≤ n ∧
+    ((Stack.run (F := F) k t0 envs).ended = some (.ok ()) →
+      (Props.Stack.published (Stack.run (F := F) k t0 envs).outs).length = n) := by
+  unfold Stack.run
+  cases hcn : Chan.connect k.conn t0 with
+  | panic => simp [Props.Stack.published]
+  | err er => simp [Props.Stack.published]
+  | ok v =>
+    obtain ⟨ch, ops⟩ := v
+    let st0 : St F := { chan := ch, ts := init k.strat t0, agg := Agg.State.new k.agg }
+    have h1 := loop_round_count (F := F) hc envs st0 (.init t0)
+    have h2 := loop_exactly_n_rounds (F := F) hc n hn hm envs st0 (.init t0) (by simp [st0, init])
+    have hr0 : st0.ts.round = 0 := by simp [st0, init]
+    rw [hr0] at h1
+    simp only [Nat.zero_add] at h1
+    refine ⟨?_, fun h => ?_⟩
+    · show (Props.Stack.published (Stack.loop k.strat st0 envs).2.1).length ≤ n
+      rw [← h1]; exact h2.1
+    · show (Props.Stack.published (Stack.loop k.strat st0 envs).2.1).length = n
+      rw [← h1]; exact h2.2 h
+
 #print axioms loop_returns_from
+#print axioms loop_round_count
+#print axioms loop_exactly_n_rounds
+#print axioms run_exactly_n_rounds
 #print axioms run_returns
 end TV.Props.StackLive
